@@ -355,6 +355,10 @@ SCAN = [
     ("pointer-keyed ordered container", r"std::(?:multi)?(?:map|set)\s*<\s*(?:const\s+)?[\w:]+\s*\*", "soft"),
     ("address as a number", r"uintptr_t|reinterpret_cast<\s*(?:std::)?(?:size_t|u?intptr_t|unsigned long)", "soft"),
     ("thread_local / static mutable state in a draw path", r"\bthread_local\b", "soft"),
+    # also textual (template code that no instantiation of the scan TU reaches is invisible to the AST matchers)
+    ("threads / tasks / parallel algorithms",
+     r"std::j?thread\b|std::async\b|hardware_concurrency|std::execution::|#\s*pragma\s+omp|<execution>|<thread>|<future>", "hard"),
+    ("hash / order of addresses", r"std::hash<[^<>]*\*\s*>|std::less<[^<>]*\*\s*>|std::owner_less", "soft"),
 ]
 # occurrences that were read and judged harmless for this property (file, tag)
 ALLOW = {
@@ -386,6 +390,181 @@ def source_scan():
                             hits.append({"file": rel, "line": i, "what": tag, "severity": sev,
                                          "allowed": (rel, tag) in ALLOW, "text": ln.strip()[:120]})
     return hits
+
+
+# ---- (c1) AST scan: clang-query / clang-tidy over ONE translation unit made of every .cc of src/utility and
+#      src/kernel plus the whole-run harness (which instantiates the search / evolution / strategy templates)
+AST_QUERIES = [
+    ("pointer relational comparison", "hard",
+     'binaryOperator(hasAnyOperatorName("<", ">", "<=", ">="), hasLHS(hasType(pointerType())), '
+     'hasRHS(hasType(pointerType())), unless(isExpansionInSystemHeader()), unless(isExpansionInFileMatching("/harness/")))'),
+    ("mutable object with static or thread storage duration", "hard",
+     'varDecl(hasGlobalStorage(), unless(hasType(isConstQualified())), unless(isExpansionInSystemHeader()), '
+     'unless(isExpansionInFileMatching("/harness/")))'),
+    ("pointer-keyed associative container", "hard",
+     'declaratorDecl(hasType(hasUnqualifiedDesugaredType(recordType(hasDeclaration(classTemplateSpecializationDecl('
+     'hasAnyName("::std::map", "::std::set", "::std::multimap", "::std::multiset", "::std::unordered_map", '
+     '"::std::unordered_set", "::std::unordered_multimap", "::std::unordered_multiset"), '
+     'hasTemplateArgument(0, refersToType(pointerType()))))))), unless(isExpansionInSystemHeader()), '
+     'unless(isExpansionInFileMatching("/harness/")))'),
+    ("hash of a pointer", "hard",
+     'cxxOperatorCallExpr(hasOverloadedOperatorName("()"), hasArgument(0, hasType(hasUnqualifiedDesugaredType(recordType('
+     'hasDeclaration(classTemplateSpecializationDecl(hasName("::std::hash"), hasTemplateArgument(0, '
+     'refersToType(pointerType())))))))), unless(isExpansionInSystemHeader()))'),
+    ("pointer converted to an integer", "hard",
+     'explicitCastExpr(hasDestinationType(isInteger()), hasSourceExpression(hasType(pointerType())), '
+     'unless(isExpansionInSystemHeader()), unless(isExpansionInFileMatching("/harness/")))'),
+    ("thread / async", "hard",
+     'expr(anyOf(callExpr(callee(functionDecl(hasAnyName("::std::async", "::std::thread::hardware_concurrency")))), '
+     'cxxConstructExpr(hasType(hasUnqualifiedDesugaredType(recordType(hasDeclaration(cxxRecordDecl(hasAnyName('
+     '"::std::thread", "::std::jthread")))))))), unless(isExpansionInSystemHeader()), '
+     'unless(isExpansionInFileMatching("/harness/")))'),
+    ("parallel algorithm (execution policy argument)", "hard",
+     'callExpr(hasArgument(0, hasType(hasUnqualifiedDesugaredType(recordType(hasDeclaration(cxxRecordDecl('
+     'matchesName("::std::execution::.*policy"))))))), unless(isExpansionInSystemHeader()))'),
+    ("randomness / time / process identity outside random::engine", "hard",
+     'expr(anyOf(callExpr(callee(functionDecl(hasAnyName("::rand", "::srand", "::random", "::drand48", "::time", "::clock", '
+     '"::getpid", "::gettimeofday", "::clock_gettime", "::std::rand", "::std::srand", "::std::time", "::std::clock")))), '
+     'cxxConstructExpr(hasType(hasUnqualifiedDesugaredType(recordType(hasDeclaration(cxxRecordDecl(hasName('
+     '"::std::random_device")))))))), unless(isExpansionInSystemHeader()), unless(isExpansionInFileMatching("/harness/")))'),
+]
+# every hit of today's tree, read and judged (key: tag, file, whitespace-normalised source line) -> why harmless
+AST_REVIEWED = {
+    ("pointer relational comparison", "utility/small_vector.tcc", "for (; size_ < capacity_; ++size_)"):
+        "two pointers into the same buffer of one small_vector (loop bound), not an ordering of objects",
+    ("mutable object with static or thread storage duration", "kernel/compatibility_patch.h", "static termios oldt, newt;"):
+        "terminal mode saved / restored around a run (keyboard polling); never read by the evolution",
+    ("mutable object with static or thread storage duration", "kernel/log.h", "static level reporting_level;"):
+        "log verbosity: output only",
+    ("mutable object with static or thread storage duration", "kernel/log.h", "static std::unique_ptr<std::ostream> stream;"):
+        "log file stream: output only",
+    ("mutable object with static or thread storage duration", "kernel/log.cc", "log::level log::reporting_level = log::lALL;"):
+        "definition of log::reporting_level",
+    ("mutable object with static or thread storage duration", "kernel/log.cc", "std::unique_ptr<std::ostream> log::stream = nullptr;"):
+        "definition of log::stream",
+    ("mutable object with static or thread storage duration", "kernel/gp/symbol.h", "static opcode_t opc_count_;"):
+        "process-wide opcode counter: names symbols in creation order – a second problem built in the same process is a "
+        "renaming (the reason in-process repetition of i_mep runs is excluded); two processes number alike",
+    ("mutable object with static or thread storage duration", "kernel/gp/symbol.cc", "opcode_t symbol::opc_count_(0);"):
+        "definition of symbol::opc_count_",
+    ("mutable object with static or thread storage duration", "kernel/cache.h", "extern void (*sched_callback)(int);"):
+        "VITA_VERIF hook (C15), null unless a harness installs it",
+    ("mutable object with static or thread storage duration", "kernel/cache.cc", "void (*verif_hook::sched_callback)(int) = nullptr;"):
+        "definition of the VITA_VERIF hook",
+    ("mutable object with static or thread storage duration", "kernel/random.h", "extern engine_t engine;"):
+        "THE engine of the property: every stochastic choice goes through it, random::seed() resets all of it",
+    ("mutable object with static or thread storage duration", "kernel/random.cc", "engine_t engine;"):
+        "definition of random::engine",
+    ("mutable object with static or thread storage duration", "kernel/gp/mep/i_mep.cc", "thread_local std::vector<std::byte> packed;"):
+        "scratch buffer of i_mep::pack(): cleared before every use, no value survives a call",
+    ("mutable object with static or thread storage duration", "kernel/gp/src/lambda_f.tcc", "extern std::map<std::string, build_func> factory_;"):
+        "registry of lambda builders keyed by class name: filled at start-up, ordered by string",
+    ("mutable object with static or thread storage duration", "kernel/gp/src/lambda_f.cc", "std::map<std::string, build_func> factory_;"):
+        "definition of the lambda builder registry",
+    ("mutable object with static or thread storage duration", "kernel/evaluator.tcc", "static random::engine_t e;"):
+        "test_evaluator (random flavour): re-seeded from its argument before every use (`e.seed(dist); return e()`), a "
+        "pure function of the argument; not used by any search",
+    ("mutable object with static or thread storage duration", "kernel/evolution.tcc", "static unsigned last_run(0);"):
+        "log_evolution(): decides whether a blank line separates runs in the statistics files – formatting of a log, "
+        "and the transcripts include those files",
+    ("pointer-keyed associative container", "kernel/analyzer.h",
+     "std::map<const symbol *, sym_counter, cmp_symbol_ptr> sym_counter_;"):
+        "ordered by cmp_symbol_ptr = opcode order, not by address",
+    ("randomness / time / process identity outside random::engine", "kernel/random.cc", "std::random_device rd;"):
+        "random::randomize(): the explicit request for an unpredictable seed; seed() afterwards restores determinism "
+        "(exercised by the `mixed` requests)",
+}
+# cppcoreguidelines-pro-type-member-init findings of today's tree (key: file, message) -> why harmless
+UNINIT_REVIEWED = {
+    ("kernel/cache.h", "constructor does not initialize these fields: seal"):
+        "cache::slot is value-initialised by std::vector<slot>(n) (zeroes `seal`); the implicit constructor is never "
+        "used for default-initialisation",
+    ("kernel/compatibility_patch.h", "uninitialized record type: 'tv'"): "both fields assigned on the next two lines",
+    ("kernel/gp/gene.h", "constructor does not initialize these fields: sym, par"):
+        "basic_gene(): placeholder elements of a genome matrix, overwritten before any read (C02 checks well-formedness)",
+    ("kernel/gp/gene.tcc", "constructor does not initialize these fields: par"):
+        "`par` is meaningful (and read, compared, saved) only when sym->parametric(); init_if_parametric() sets it then",
+    ("kernel/gp/mep/interpreter.h", "constructor does not initialize these fields: valid"):
+        "elem_ of the interpreter cache: matrix<elem_>(r, c) value-initialises (valid = false)",
+    ("kernel/individual.h", "constructor does not initialize these fields: age_"):
+        "individual() = default is always reached through value-initialisation (`: individual()` in every derived "
+        "constructor, `T()` elsewhere), which zeroes age_; `i_ga x;` would leave it indeterminate – no such use in src/",
+    ("utility/matrix.h", "constructor does not initialize these fields: cols_"):
+        "delegating constructor matrix() : matrix(0, 0) – cols_ is set by the delegate",
+    ("utility/matrix.tcc", "constructor does not initialize these fields: cols_"):
+        "delegating constructor: cols_ is set by matrix(rows, cols)",
+}
+
+
+def scan_tu():
+    d = os.path.join(C.BUILD, "c07_scan")
+    os.makedirs(d, exist_ok=True)
+    ccs = []
+    for sub in ("utility", "kernel"):
+        for dd, dn, fs in os.walk(os.path.join(C.REPO, "src", sub)):
+            dn.sort()
+            ccs += [os.path.relpath(os.path.join(dd, f), os.path.join(C.REPO, "src")) for f in sorted(fs)
+                    if f.endswith(".cc")]
+    # utility.cc defines explicit specialisations the kernel sources use: it must come first
+    ccs.sort(key=lambda f: (0 if f.startswith("utility/") else 1, f))
+    tu = os.path.join(d, "unity.cc")
+    txt = "".join('#include "%s"\n' % f for f in ccs) + '#include "%s"\n' % os.path.join(C.ROOT, "harness", "c07_run.cc")
+    if not os.path.exists(tu) or open(tu).read() != txt:
+        open(tu, "w").write(txt)
+    flags = ["--", "-std=c++17", "-w", "-DNDEBUG", "-D" + C.GUARD, "-I" + os.path.join(C.REPO, "src"),
+             "-isystem", os.path.join(C.REPO, "src", "third_party"), "-I" + os.path.join(C.ROOT, "harness")]
+    return d, tu, flags, len(ccs)
+
+
+def ast_scan():
+    """-> (hits, uninit, error)"""
+    d, tu, flags, nfiles = scan_tu()
+    src_root = os.path.join(C.REPO, "src") + os.sep
+    q = os.path.join(d, "queries.txt")
+    with open(q, "w") as f:
+        f.write("set output diag\nset bind-root true\nset traversal AsIs\n")
+        for _, _, m in AST_QUERIES:
+            f.write("match " + m + "\n")
+    try:
+        rc, so, se = C.sh(["clang-query-14", "-f", q, tu] + flags, timeout=1200)
+    except Exception as e:
+        return [], [], "clang-query did not finish: %r" % e
+    if rc != 0 or " error: " in se or len(re.findall(r"^\d+ match(?:es)?\.$", so, re.M)) != len(AST_QUERIES):
+        return [], [], "clang-query failed on the scan translation unit (rc=%d): %s" % (rc, (se + so)[-800:])
+    hits, qi, lines = [], 0, so.splitlines()
+    seen = set()
+    for i, ln in enumerate(lines):
+        if re.match(r"^\d+ match(?:es)?\.$", ln):
+            qi += 1
+            continue
+        m = re.match(r"^(/.*?):(\d+):(\d+): note: \"root\" binds here", ln)
+        if m and qi < len(AST_QUERIES):
+            tag, sev, _ = AST_QUERIES[qi]
+            path = m.group(1)
+            rel = path[len(src_root):] if path.startswith(src_root) else path
+            text = norm_ws(lines[i + 1]) if i + 1 < len(lines) else ""
+            key = (tag, rel, text)
+            if (key, int(m.group(2))) in seen:      # one declaration, several template instantiations
+                continue
+            seen.add((key, int(m.group(2))))
+            hits.append({"what": tag, "severity": sev, "file": rel, "line": int(m.group(2)), "text": text[:160],
+                         "reviewed": AST_REVIEWED.get(key)})
+    try:
+        rc, so, se = C.sh(["clang-tidy-14", "-checks=-*,cppcoreguidelines-pro-type-member-init",
+                           "-header-filter=.*/src/(kernel|utility)/.*", tu] + flags, timeout=1200)
+    except Exception as e:
+        return hits, [], "clang-tidy did not finish: %r" % e
+    uninit, useen = [], set()
+    for m in re.finditer(r"^(/.*?):(\d+):\d+: warning: (.*?) \[cppcoreguidelines-pro-type-member-init\]", so, re.M):
+        path = m.group(1)
+        if not path.startswith(src_root):
+            continue
+        key = (path[len(src_root):], m.group(3))
+        if (key, m.group(2)) in useen:
+            continue
+        useen.add((key, m.group(2)))
+        uninit.append({"file": key[0], "line": int(m.group(2)), "message": key[1], "reviewed": UNINIT_REVIEWED.get(key)})
+    return hits, uninit, None
 
 
 # ---- (c2) wall-clock / timer sites -----------------------------------------------------------------
@@ -833,6 +1012,8 @@ def replay_whole_run(chk, r):
 def run(chk, replay=None):
     rng = C.SplitMix(chk.seed)
     broken = []
+    scan_pool = cf.ThreadPoolExecutor(1)
+    scan_job = None if replay else scan_pool.submit(ast_scan)
 
     # ---- translator + proofs ----------------------------------------------------------------
     gen = os.path.join(C.LEAN, "Vita", "C07", "Gen.lean")
@@ -983,6 +1164,26 @@ def run(chk, replay=None):
                 broken.append(msg + " – a source of randomness outside random::engine")
             else:
                 chk.notes.append(msg + " – potential address dependence; relying on the transcript comparison")
+        hits2, uninit, err = scan_job.result()
+        chk.cov["ast_scan"] = hits2
+        chk.cov["uninitialised_members_clang_tidy"] = uninit
+        if err:
+            broken.append("AST scan of src/kernel, src/utility did not run: " + err)
+        for h in hits2:
+            chk.count("ast-scan:" + h["what"])
+            if not h["reviewed"]:
+                msg = "AST scan: %s at src/%s:%d (`%s`) is not on the reviewed list (checks/c07.py AST_REVIEWED)" % (
+                    h["what"], h["file"], h["line"], h["text"])
+                if h["severity"] == "hard":
+                    broken.append(msg + " – a possible source of run-to-run differences that no transcript comparison "
+                                  "is known to cover")
+                else:
+                    chk.notes.append(msg)
+        for u in uninit:
+            if not u["reviewed"]:
+                chk.notes.append("clang-tidy: src/%s:%d %s – not on the reviewed list (an uninitialised member read by the "
+                                 "evolution would make runs differ; relying on the MALLOC_PERTURB_ transcripts)"
+                                 % (u["file"], u["line"], u["message"]))
         sites, blocks = clock_scan()
         chk.cov["clock_sites"] = sites
         chk.cov["clock_controlled_code"] = blocks
